@@ -85,9 +85,27 @@ def render_items(items):
     return "\n".join(l[2:] if l.startswith("  ") else l for l in lines[1:-1])
 
 
+HOSTILE = ["tiles/*.tif", "image/*", "a */ b", "/* not a comment", "INCLUDE 'x.map'", "include other.map", "# not a comment", "say 'hi' /*", "*/"]
+
+
+def hostile_strings(rng, b):
+    """string values that look like comment openers / closers or INCLUDE directives to a line-based scan"""
+    for it in list(b.items):
+        if it[0] == "block":
+            hostile_strings(rng, it[2])
+    props = gen.raw(b.type)["properties"]
+    cands = [k for k in ("data", "template", "name", "group", "header", "footer", "tileindex", "text", "title") if k in props
+             and any(sh[0] == "string" for sh in gen.shapes(props[k], k)) and not any(len(it) > 1 and it[1] == k for it in b.items)]
+    if cands and rng.random() < .5:
+        k = rng.choice(cands)
+        v = rng.choice(HOSTILE)
+        b.items.insert(rng.randrange(len(b.items) + 1), ("attr", k, v, [(v, "qstr")], "string"))
+
+
 def build_tree(rng, want_depth):
     t = rng.choice(["map", "layer", "class"])
     b = gen.gen_block(rng, t, depth=2, max_items=6)
+    hostile_strings(rng, b)
     original = gen.render(b)
     tree = Tree()
     work = copy.deepcopy(b)
